@@ -37,6 +37,13 @@ type File struct {
 	// the io.Reader contract allows (cf. testing/iotest.DataErrReader). On the wire: a
 	// trailing "!" on the chunk list; a (0, nil) read is the token "z".
 	DataErr bool
+	// Exact (implementation only): the chunk sizes are the sizes of the bursts in which the
+	// bytes ARRIVE: a Read whose buffer is smaller than what is left of the current burst gets a
+	// full buffer and the next Read continues in the same burst, so that the read boundaries
+	// include every burst boundary whatever buffer sizes the decoder uses (without Exact a chunk
+	// larger than the buffer is cut down to it and the schedule shifts). On the wire: a leading
+	// "x" token of the chunk list.
+	Exact bool
 }
 
 // RunReq builds a "run" request line.
@@ -58,12 +65,16 @@ func RunReq(prog string, sels []string, files []File, wantJSON bool) string {
 				tail = "i"
 			}
 			ch := ""
-			if len(x.Chunks) > 0 || x.DataErr {
-				cs := make([]string, len(x.Chunks))
-				for j, c := range x.Chunks {
-					cs[j] = fmt.Sprint(c)
+			if len(x.Chunks) > 0 || x.DataErr || x.Exact {
+				cs := make([]string, 0, len(x.Chunks)+1)
+				if x.Exact {
+					cs = append(cs, "x")
+				}
+				for _, c := range x.Chunks {
 					if c < 0 {
-						cs[j] = "z"
+						cs = append(cs, "z")
+					} else {
+						cs = append(cs, fmt.Sprint(c))
 					}
 				}
 				ch = ":" + strings.Join(cs, ",")
